@@ -51,7 +51,9 @@ Clauses(ln, pv, rs) ==
            LET q == ln.sel[k] IN
            SeqSet(q.got) = (IF q.kind = "inds" THEN SelectInds(N[q.n], T, SeqSet(q.q))
                             ELSE SelectTags(N[q.n], T, SeqSet(q.q), q.kind))>>,
-     <<"NoCapture", Has(ln, "combine") /\ ln.exc = "" =>
+     \* (a label carried twice by one tensor has no agreed bond/outer status - KF-C02-1 - so combinations
+     \*  of networks holding such tensors are not judged by this clause)
+     <<"NoCapture", (Has(ln, "combine") /\ ln.exc = "" /\ RepeatedNow(pv) = {} /\ rs = {}) =>
            LET c == ln.combine IN
            NoCapture(NetOf(pv.nets[c.a]), TensOf(pv), NetOf(pv.nets[c.b]), TensOf(pv), N[c.c], T)>>,
      \* S->C replays carry the state of the implementation-shaped model: a mismatch is a drift note
